@@ -395,6 +395,7 @@ def option_value_table(prog, chk):
     overload_forwarding(prog, chk, "C20.n")
     argv_reads_within_count(prog, chk, "C20.o")
     list_overload_count(prog, chk, "C20.p")
+    reported_text_ends_at_cursor(prog, chk, "C20.q")
 
 
 def quoted_word_typestate(prog, chk, rid):
@@ -911,3 +912,62 @@ def list_overload_count(prog, chk, rid):
                             bad[0], g.sig[:50], q.no_casts(f.r(a))[:40], "" if bad[1] is None else " = %s" % bad[1]), evals=3)
             else:
                 chk.ok(rid, f, "count = number of list elements", f.where(c), q.no_casts(f.r(a))[:40], evals=3)
+
+
+def reported_text_ends_at_cursor(prog, chk, rid):
+    """Arguments::read reports a piece of the current word (`argument.attach(base, n)`) and leaves its cursor where that piece ends, so
+    that the next call goes on behind it (nextChar() only moves to the next word when the cursor stands on the terminator).  Evaluated
+    over the outcomes of the undetermined tests: at every successful return `arg == base + n` for the last piece attached."""
+    import itertools
+    chk.rule(rid, "FIN: Process::Arguments::read evaluated over the outcomes of its undetermined tests: whenever a piece of the current word "
+                  "was attached to `argument`, the cursor `arg` stands at the end of that piece when read() returns true", floor=1)
+    fs = [f for f in prog.functions.values() if f.name == "Process::Arguments::read" and f.blocks]
+    if not fs:
+        raise AnalysisBroken("Process::Arguments::read not found")
+    f = fs[0]
+    att = [c for c in q.calls(f) if (f.nodes[c].get("callee") or "").endswith("String::attach") and len(q.call_args(f, c)) == 2]
+    lens = set(fin.key(f, c) for c in q.calls(f) if (f.nodes[c].get("callee") or "") == "String::length")
+    if not att:
+        raise AnalysisBroken("Process::Arguments::read: no attach() of a reported piece found")
+    A0 = 10000
+    checked, bad = 0, None
+    tried = set()
+    for combo in itertools.product((0, 1), repeat=9):
+        val = {"this->arg": A0, "end": 0 if combo[0] else A0 + 6}
+        for k_ in lens:
+            val[k_] = 4
+        seen_keys = []
+
+        def assume(k_, _c=combo[1:], _s=seen_keys):
+            if k_ not in _s:
+                _s.append(k_)
+            ix = _s.index(k_)
+            return _c[ix] if ix < len(_c) else 0
+        last = {}
+
+        def trace(e, v_, _l=last):
+            if e in att:
+                a_ = q.call_args(f, e)
+                _l["piece"] = (fin.eval_expr(f, a_[0], v_), fin.eval_expr(f, a_[1], v_), e)
+        seen, end, fv = fin.walk_vals(f, f.entry, val, limit=500, assume=assume, trace=trace)
+        if isinstance(end, str) or "piece" not in last:
+            continue
+        ret = fin.eval_expr(f, f.nodes[end]["c"][0], fv) if f.nodes[end]["c"] else None
+        b_, n_, site = last["piece"]
+        cur = fv.get("this->arg")
+        sig_ = (site, end)
+        if not ret or b_ is None or n_ is None or not isinstance(cur, int) or sig_ in tried:
+            continue
+        tried.add(sig_)
+        checked += 1
+        if cur != b_ + n_:
+            bad = (site, "the piece reported ends %+d bytes from where the cursor is left" % ((b_ + n_) - cur))
+            break
+    if bad:
+        chk.bad(rid, f, "cursor-not-at-end-of-reported-piece", f.where(bad[0]),
+                "after `%s` read() returns with %s: the next call steps on inside the same word and reports text that is not in the argument "
+                "vector (a lone `-` is followed by a phantom empty argument)" % (q.no_casts(f.r(bad[0]))[:50], bad[1]), evals=checked + 1)
+    elif checked < 3:
+        raise AnalysisBroken("Process::Arguments::read: only %d reporting returns could be evaluated" % checked)
+    else:
+        chk.ok(rid, f, "the cursor stands at the end of the reported piece at %d reporting returns" % checked, "%s:%s" % (f.file, f.line), "evaluation over test outcomes", evals=checked)
